@@ -91,6 +91,7 @@ pub fn cases(args: &[String]) {
             }
         }
     }
+    crate::util::wd_pause();
     println!("{}", json!({ "cases": out }));
 }
 
